@@ -186,49 +186,15 @@ func computeBoundIndex(index, length Int) Int {
 }
 
 func computeRangeSlice(r *Range, s *Slice) (Object, error) {
-	start, err := getIndexWithDefault(s.Start, 0)
+	start, stop, step, sliceLength, err := s.GetIndices(int(r.Length))
 	if err != nil {
 		return nil, err
 	}
-	stop, err := getIndexWithDefault(s.Stop, r.Length)
-	if err != nil {
-		return nil, err
-	}
-	step, err := getIndexWithDefault(s.Step, 1)
-	if err != nil {
-		return nil, err
-	}
-
-	if step == 0 {
-		return nil, ExceptionNewf(ValueError, "slice step cannot be zero")
-	}
-	start = computeNegativeIndex(start, r.Length)
-	stop = computeNegativeIndex(stop, r.Length)
-
-	start = computeBoundIndex(start, r.Length)
-	stop = computeBoundIndex(stop, r.Length)
-
-	startIndex := computeItem(r, start)
-	stopIndex := computeItem(r, stop)
-	stepIndex := step * r.Step
-
-	var sliceLength Int
-	if start < stop {
-		if stepIndex < 0 {
-			startIndex, stopIndex = stopIndex-1, startIndex-1
-		}
-	} else {
-		if stepIndex < 0 {
-			startIndex, stopIndex = stopIndex+1, startIndex+1
-		}
-	}
-	sliceLength = computeRangeLength(startIndex, stopIndex, stepIndex)
-
 	return &Range{
-		Start:  startIndex,
-		Stop:   stopIndex,
-		Step:   stepIndex,
-		Length: sliceLength,
+		Start:  computeItem(r, Int(start)),
+		Stop:   computeItem(r, Int(stop)),
+		Step:   Int(step) * r.Step,
+		Length: Int(sliceLength),
 	}, nil
 }
 
